@@ -15,6 +15,7 @@ import os
 import random as _random
 
 from . import common, project, tlc, cliargs
+from .exc import exc_name
 
 SEED = 7
 
@@ -63,7 +64,7 @@ def side(fn):
     except BaseException as e:
         if isinstance(e, (KeyboardInterrupt, tlc.MachineryError)):
             raise
-        return {"outcome": "refused" if type(e).__name__ in ("CLIError", "ValueError", "SystemExit") else type(e).__name__,
+        return {"outcome": "refused" if exc_name(e) in ("CLIError", "ValueError", "SystemExit") else exc_name(e),
                 "cls": "CNF", "nvars": 0, "labels": [], "clauses": []}
     p = project.formula(F)
     out = {"outcome": "ok", "cls": p["cls"], "nvars": p["nvars"], "labels": p["labels"]}
